@@ -398,7 +398,25 @@ func ruleWrapCompose(p *Prog, r *Report, specs []wrapSpec) {
 			}
 			recv := args[0]
 			cons := fmt.Sprintf("%s receives result of %s", p.Name(c.Callee), p.Name(srcCall.Callee))
-			if derivesFrom(recv, src) {
+			okRecv := derivesFrom(recv, src)
+			if !okRecv {
+				// var n Map; if err == nil { n, err = step() }: the zero value on the failed path, the result otherwise
+				if ph, isPhi := recv.(*ssa.Phi); isPhi {
+					some, all := false, true
+					for _, e := range ph.Edges {
+						if isNilConst(e) {
+							continue
+						}
+						if derivesFrom(e, src) {
+							some = true
+						} else {
+							all = false
+						}
+					}
+					okRecv = some && all
+				}
+			}
+			if okRecv {
 				r.OK(rule, sp.Fn, cons, p.Pos(c.Instr.Pos()), "first argument is that result through conversions only")
 			} else {
 				r.Bad(rule, sp.Fn, cons, p.Pos(c.Instr.Pos()), "the call is not applied to the value produced by the preceding step of the documented composition")
